@@ -77,7 +77,7 @@ def gen_ops(ctx, n):
 
 def run(ctx):
     from liquer.cache import NoCache
-    n = 20000 if ctx.tier == "thorough" else 1500
+    n = 24000 if ctx.tier == "thorough" else 4000
     cases = gen_ops(ctx, n)
     lines = []
     results = EP.common.pmap(EP.run_session_task, [(None, [op], dflt) for op, dflt in cases])
